@@ -1172,7 +1172,7 @@ impl Prop for C19 {
         run(c, o)
     }
     fn rule() -> &'static str {
-        "proptest over descriptor sets described as trees: 1-4 files (4 name styles, optionally importing the previous file; package none / p / p.q, shared or not) x 0-3 messages nested to depth 3 (0-3 fields, 0-2 oneofs, 0-2 nested enums) x 0-2 top-level enums (0-3 values) x 0-2 services (0-3 methods); simple names from a global counter or reused across scopes; registration plan = 1-3 sets, each encoded or struct, files split over them, a file registered twice (40%), a file left unregistered (12%); include_reflection_service on/off; with_service_name 0-3 names (declared or foreign, repeated). Requests through the generated v1 and v1alpha clients in-process (one stream / one per call / batches of 2-7): list_services twice, every file name, every declared fully-qualified name of every kind, both spellings of every enum value, the service's own symbols and file, the other version's service, and 0-10 derived names (prefix, suffix, case flip, extra dot, leading dot, dropped / duplicated / swapped component, symbol asked as file and vice versa) inserted anywhere in the sequence. Oracle: own walker over the tree gives name -> declaring file; answers must carry a descriptor that decodes equal to the registered one, unknown names NOT_FOUND (status or error_response), service list equal as a multiset, v1 == v1alpha after normalisation. Non-trivial: >=2 registered files, or nesting depth >=2, or a nested enum; distinct = distinct serialised case. Some nested messages carry the map_entry option and some fields are proto3_optional with their synthetic _field oneof (all of them declarations that must resolve). Every sixteenth file carries a 70 KB option string (descriptor > 64 KiB)."
+        "proptest over descriptor sets described as trees: 1-4 files (4 name styles, optionally importing the previous file; package none / p / p.q, shared or not) x 0-3 messages nested to depth 3 (0-3 fields, 0-2 oneofs, 0-2 nested enums) x 0-2 top-level enums (0-3 values) x 0-2 services (0-3 methods); simple names from a global counter or reused across scopes; registration plan = 1-3 sets, each encoded or struct, files split over them, a file registered twice (40%), a file left unregistered (12%); include_reflection_service on/off; with_service_name 0-3 names (declared or foreign, repeated). Requests through the generated v1 and v1alpha clients in-process (one stream / one per call / batches of 2-7): list_services twice, every file name, every declared fully-qualified name of every kind, both spellings of every enum value, the service's own symbols and file, the other version's service, and 0-10 derived names (prefix, suffix, case flip, extra dot, leading dot, dropped / duplicated / swapped component, symbol asked as file and vice versa) inserted anywhere in the sequence. Oracle: own walker over the tree gives name -> declaring file; answers must carry a descriptor that decodes equal to the registered one, unknown names NOT_FOUND (status or error_response), service list equal as a multiset, v1 == v1alpha after normalisation. Non-trivial: >=2 registered files, or nesting depth >=2, or a nested enum; distinct = distinct serialised case. Some nested messages carry the map_entry option and some fields are proto3_optional with their synthetic _field oneof (all of them declarations that must resolve). Every sixteenth file carries a 70 KB option string (descriptor > 64 KiB). A quarter of the files carry source_code_info (comments, spans)."
     }
     fn assumptions() -> Vec<String> {
         vec![
